@@ -814,14 +814,23 @@ class ExternalTensor(TensorBase, _protocols.TensorProtocol):  # pylint: disable=
         # Uses a single stat call (try/except) to avoid a TOCTOU between
         # os.path.exists() and os.stat().
         try:
-            nlink = os.stat(path_real).st_nlink
+            file_stat = os.stat(path_real)
         except OSError:
-            nlink = 1  # File doesn't exist yet — skip hardlink check
+            return  # File doesn't exist yet — skip the checks on the file itself
+        nlink = file_stat.st_nlink
         if nlink > 1:
             raise ValueError(
                 f"External data path '{path}' has multiple hard links "
                 f"(nlink={nlink}). "
                 "This may indicate a hard link attack."
+            )
+        # External data lives in regular files. A FIFO, socket or device node placed in
+        # the model directory is neither a symlink nor hard-linked, so it passes the
+        # checks above, but reading it returns bytes that are not file contents (or blocks).
+        if not stat.S_ISREG(file_stat.st_mode):
+            raise ValueError(
+                f"External data path '{path}' is not a regular file. "
+                "External data must be stored in regular files."
             )
 
     def _load(self):
